@@ -7,7 +7,7 @@
   answer = `<out>,<out>,… <table>`; out = `h<hex>` | `-` (no output) | `E` (error);
            table = entries `<h(handle)>=<value>` sorted, joined by `;` (or `-` when empty);
            value = `L[cell,…]` in order (cell = `h<hex>` string, `n<hex of decimal>` number),
-           `M[hK>cell,…]` sorted, `S[h..,…]` sorted, `O` other.
+           `M[hK>cell,…]` sorted, `S[h..,…]` sorted, `O<tag>` other kind (only made by `__foreign:<tag>`).
   Handles are the model's `handle:<k>`; the harness renames the real ones.
 -/
 import DuckModel.Wire
@@ -64,12 +64,25 @@ def decArg (t : String) : Option Arg :=
   | '@' :: r => (String.ofList r).toNat?.map .ref
   | _ => (decStr t).map .lit
 
-def decOp (t : String) : Option (CollCmd × List Arg) :=
+/-- one request step: a collection command, or `__foreign:<tag>` = the EMBEDDER stores a value of
+    one of the ten non-collection kinds (tag 0-9: Boolean, Number, UnsignedNumber, Number32Bit,
+    UnsignedNumber32Bit, Number64Bit, UnsignedNumber64Bit, String, ByteArray, Any) under a fresh
+    handle key — `put_handle`, which is what `Context.state` being public allows; the theorems
+    `C12_refines*` hold from every related pair of states, so such tables are inside them -/
+inductive DOp
+  | cmd (c : CollCmd) (a : List Arg)
+  | foreign (tag : Nat)
+
+def decOp (t : String) : Option DOp :=
   match t.splitOn ":" with
+  | ["__foreign", a] => do
+    let s ← decStr a
+    let n ← (String.ofList s).toNat?
+    pure (.foreign n)
   | [c, a] => do
     let cmd ← cmdOfName c
     let args ← if a.isEmpty then some [] else (a.splitOn ",").mapM decArg
-    pure (cmd, args)
+    pure (.cmd cmd args)
   | _ => none
 
 def resolve (outs : Array Res) : Arg → Str
@@ -81,11 +94,14 @@ def resolve (outs : Array Res) : Arg → Str
     | some .err => sFalse
     | none => []
 
-def runOps (s : St) (outs : Array Res) : List (CollCmd × List Arg) → St × Array Res
+def runOps (s : St) (outs : Array Res) : List DOp → St × Array Res
   | [] => (s, outs)
-  | (c, a) :: rest =>
+  | .cmd c a :: rest =>
     let (s', r) := exec s c (a.map (resolve outs))
     runOps s' (outs.push r) rest
+  | .foreign tag :: rest =>
+    let (s', h) := putHandle s (.other tag)
+    runOps s' (outs.push (.val (some h))) rest
 
 def encRes : Res → String
   | .val none => "-"
@@ -102,7 +118,7 @@ def encValue : Value → String
   | .list l => "L[" ++ ",".intercalate (l.map encItem) ++ "]"
   | .map m => "M[" ++ ",".intercalate (sortStrings (m.map fun (k, v) => encStr k ++ ">" ++ encItem v)) ++ "]"
   | .set s => "S[" ++ ",".intercalate (sortStrings (s.map encStr)) ++ "]"
-  | .other _ => "O"
+  | .other t => "O" ++ toString t
 
 def encTable (t : Table) : String :=
   if t.isEmpty then "-" else
